@@ -60,17 +60,37 @@ def run(sim, params):
             plan.append((S.PHASES[t.draw(3, "phase")], jobs[t.draw(len(jobs), "job")],
                          t.draw(limit + 3, "count") if manager == "simrollback" else 1 + t.draw(2, "count"), ("soft", "stop")[t.draw(2, "kind")]))
     faults = {}
+    anc_family = False
+    if params.get("enum") != "counts" and manager == "simrollback" and t.draw(4, "ancestor.loss.family") == 3:
+        # pipeline whose downstream jobs fail-stop and wipe the outputs of ALL their ancestors (a whole
+        # location lost): upstream jobs are rolled back once per downstream failure and must obey the
+        # limit too
+        anc_family = True
+        shape = {"kind": "pipe", "k": 3 + t.draw(3, "pipe.len")}
+        limit = 2 + t.draw(3, "limit2")
+        jobs = sorted(S.jobs_of(shape))
+        plan = []
+        for j in t.shuffle(jobs[1:], "anc.which")[: 1 + t.draw(3, "anc.nfail")]:
+            plan.append(("execute", j, 1 + t.draw(2, "anc.count"), "stop"))
     g0 = S.jobs_of(shape)
     # a job with several inputs has one transfer step per input; two of them failing inside one
     # attempt make "how many times did the job fail" ambiguous, so such jobs fail in the execute phase
     plan = [(("execute" if phase == "transfer" and len(g0[job]) > 1 else phase), job, cnt, kind) for phase, job, cnt, kind in plan]
     for phase, job, cnt, kind in plan:
         if cnt:
-            faults[(phase, job)] = [{"kind": kind, "lose": []}] * cnt
+            faults[(phase, job)] = [{"kind": kind, "lose": sorted(S.ancestors(g0, job)) if anc_family else []}] * cnt
     res = S.execute(sim, shape, faults, max_retries=limit, retry_delay=(0, 0, 2)[t.draw(3, "retry_delay")],
                     manager=manager if manager != "none" else None)
     d = S.desc(shape, faults) + f" limit={limit} manager={manager}"
     c = res.ctl
+    if res.status == "deadlock" and anc_family:
+        need = {}
+        for j in g0:
+            need[j] = 1 + sum(len(fl) for (ph, jj), fl in faults.items() if jj == j or j in S.ancestors(g0, jj))
+        over = sorted(j for j, n in need.items() if n > limit)
+        raise Violation("deadlock", f"neither completed nor raised (loop quiescent); jobs that would need more than max_retries={limit} executions: {over}; "
+                        f"pending={[(p['task'], p['at'][-2:]) for p in res.deadlock][:6]}; {d}",
+                        signature="deadlock:" + ("upstream_retries_exhausted" if over else "upstream_within_limit"))
     if res.status == "deadlock":
         raise Violation("deadlock", f"neither completed nor raised (loop quiescent); pending={[(p['task'], p['at'][-2:]) for p in res.deadlock][:6]}; {d}",
                         signature="deadlock:" + ("exhausted" if any(n >= limit for _, _, n, _ in plan) else "recoverable"))
@@ -78,6 +98,17 @@ def run(sim, params):
     for (phase, job), fl in faults.items():
         per_job[job] = per_job.get(job, 0) + len(fl)
     exhausted = any(n >= limit for n in per_job.values())
+    if anc_family:
+        # only the bound itself is decided here: nobody runs more than `limit` times, and the run ends
+        for job, n in c.execs.items():
+            if n > limit:
+                raise Violation("too_many_attempts", f"the command of job {job} was executed {n} times with max_retries={limit} (upstream job rolled back by downstream failures); {d}",
+                                signature="too_many_attempts:execute:upstream")
+        if res.status == "ok":
+            _c16.check_result(sim, res, shape, faults)
+        sim.probe("ancestor_loss_family")
+        sim.run(res.ctx.close())
+        return {"nontrivial": True, "sample": {"shape": shape, "plan": plan, "limit": limit, "status": res.status, "executions": dict(c.execs)}}
     g = S.jobs_of(shape)
     # a job with several inputs has one transfer step per input: two of them can fail in the same attempt
     multi_transfer = {job: True for (phase, job) in faults if phase == "transfer" and len(g[job]) > 1}
